@@ -143,11 +143,12 @@ CHECKS = {
                       "must apply with the same result; diffs with number-like keys or the key \"-\" must be refused. Exploration over sampled diffs and targets.",
         "level_note": "Trusts ref/rfc.go. Keys of 19 or more digits are a grey zone (whether they look like a number depends on the integer width): either outcome is accepted "
                       "and a rendered patch is still checked for meaning.",
-        "rule": "(a, b) list-mode pairs, 50% with the nasty key pool (\"\", a/b, m~n, unicode, 1, 01, -, +1, ...), 1-5 edits, occasionally a void side; target c as in C03. "
+        "rule": "(a, b) list-mode pairs, 50% with the nasty key pool (\"\", a/b, m~n, unicode, 1, 01, -, +1, ...), 1-5 edits, occasionally a void side; target c as in C03; refusal leg: diffs made under set / mset / setkeys:id whose paths address set members must make RenderPatch return an error. "
                 "Non-trivial: the patch has a context test, or >= 2 adds at one pointer, or an escaped token; distinct by (a, b, c).",
         "assumptions": ["RFC 6902 'remove' of the whole document leaves the empty (void) document"],
         "legs": [
             rapid("random", "TestC09Random", {"checks": 25000, "shards": 4}, {"checks": 250000, "shards": 16, "timeout": 6000}),
+            rapid("refusal", "TestC09Refusal", {"checks": 10000, "shards": 2}, {"checks": 100000, "shards": 8, "timeout": 6000}),
         ],
     },
     "C10": {
